@@ -28,6 +28,26 @@ pub enum Entity { A(A), B(B) }
 #[derive(Union, Clone)]
 pub enum U { A(A), B(B) }
 
+/// derive(SimpleObject) with a flattened part: its fields have generated resolvers (no events, no gates, cannot fail)
+#[derive(SimpleObject, Clone)]
+pub struct More { slabel: Option<String>, sb: Option<bool> }
+#[derive(SimpleObject, Clone)]
+#[graphql(name = "S")]
+pub struct Simple { sid: ID, sn: Option<i32>, snn: i32, sf: Option<f64>, se: Option<Color>, sints: Vec<i32>, #[graphql(flatten)] more: More }
+impl Simple {
+    pub fn load(ctx: &Context<'_>, id: &str) -> Result<Simple> {
+        let req = ctx.data_unchecked::<Arc<Req>>().clone();
+        let g = |f: &str| req.lookup(id, f);
+        fn o<T: FromW>(w: J) -> Result<Option<T>> { opt::<T>(&w).transpose() }
+        Ok(Simple { sid: ID(id.to_string()), sn: o(g("sn"))?, snn: i32::from_w(&g("snn"))?, sf: o(g("sf"))?, se: o(g("se"))?,
+            sints: list_nn::<i32>(&g("sints"))?.into_iter().collect::<Result<Vec<_>>>()?,
+            more: More { slabel: o(g("slabel"))?, sb: o(g("sb"))? } })
+    }
+}
+fn simple_of(ctx: &Context<'_>, w: &J) -> Option<Result<Simple>> {
+    if is_null(w) { None } else if is_err(w) { Some(Err("boom".into())) } else { Some(Simple::load(ctx, w["id"].as_str().unwrap_or(""))) }
+}
+
 fn path_of(ctx: &Context<'_>) -> J {
     // QueryPathNode is Serialize: names as strings, indices as numbers
     match ctx.path_node {
@@ -39,7 +59,7 @@ fn path_of(ctx: &Context<'_>) -> J {
     }
 }
 
-pub const ALL_FIELD_NAMES: &[&str] = &["id", "label", "peer", "n", "nn", "f", "fnn", "e", "self", "selfNN", "kids", "kidsNN", "opt", "u", "fail", "guarded", "arg", "b", "a", "ann", "node", "nodes", "us", "bump", "bumpA", "entity", "ints", "grid", "colors"];
+pub const ALL_FIELD_NAMES: &[&str] = &["id", "label", "peer", "n", "nn", "f", "fnn", "e", "self", "selfNN", "kids", "kidsNN", "opt", "u", "fail", "guarded", "arg", "b", "a", "ann", "node", "nodes", "us", "bump", "bumpA", "entity", "ints", "grid", "colors", "simple", "sid", "sn", "snn", "sf", "se", "sints", "slabel", "sb"];
 
 pub fn views(ctx: &Context<'_>) -> J {
     // selection-field view: names (with aliases) of the direct sub-fields, fragments followed
@@ -144,6 +164,7 @@ impl A {
     async fn kids_nn(&self, ctx: &Context<'_>) -> Result<Vec<Result<Node>>> { list_nn(&resolve(ctx, &self.0, "kidsNN").await) }
     async fn opt(&self, ctx: &Context<'_>) -> Option<Result<Vec<Option<Result<A>>>>> { opt_list_opt(&resolve(ctx, &self.0, "opt").await) }
     async fn u(&self, ctx: &Context<'_>) -> Option<Result<U>> { opt(&resolve(ctx, &self.0, "u").await) }
+    async fn simple(&self, ctx: &Context<'_>) -> Option<Result<Simple>> { simple_of(ctx, &resolve(ctx, &self.0, "simple").await) }
     /// leaf list [Int!] and nested list [[Int]!]
     async fn ints(&self, ctx: &Context<'_>) -> Option<Result<Vec<Result<i32>>>> { opt_list_nn(&resolve(ctx, &self.0, "ints").await) }
     async fn grid(&self, ctx: &Context<'_>) -> Option<Result<Vec<Result<Vec<Option<Result<i32>>>>>>> { opt_list_nn(&resolve(ctx, &self.0, "grid").await) }
@@ -171,6 +192,7 @@ pub struct Query;
 impl Query {
     async fn node(&self, ctx: &Context<'_>) -> Option<Result<Node>> { opt(&resolve(ctx, "root", "node").await) }
     async fn nodes(&self, ctx: &Context<'_>) -> Result<Vec<Result<Node>>> { list_nn(&resolve(ctx, "root", "nodes").await) }
+    async fn simple(&self, ctx: &Context<'_>) -> Option<Result<Simple>> { simple_of(ctx, &resolve(ctx, "root", "simple").await) }
     async fn entity(&self, ctx: &Context<'_>) -> Option<Result<Entity>> { opt(&resolve(ctx, "root", "entity").await) }
     async fn a(&self, ctx: &Context<'_>) -> Option<Result<A>> { opt(&resolve(ctx, "root", "a").await) }
     async fn ann(&self, ctx: &Context<'_>) -> Result<A> { req(&resolve(ctx, "root", "ann").await) }
